@@ -179,6 +179,7 @@ func init() {
 			e.clockAdvance(a[0].(*Term))
 			return nil
 		},
+		z + "ClosePoint": func(e *Exec, fr *frame, a []Value) Value { return nil },
 		z + "MarkClosed": func(e *Exec, fr *frame, a []Value) Value { return nil },
 
 		// ---- environment models ----
